@@ -110,6 +110,15 @@ let check (b : block) : verdict list =
       | Some toks when List.exists (fun t -> String.length t > 6 && String.sub t 0 6 = "extra=" && t <> "extra=0") toks ->
         bump "shape_free_features"
       | _ -> ());
+     (* the loader model on the original input when that is a c2d file *)
+     (match b.files with
+      | ("c2d", orig) :: _ ->
+        (match Model.load_c2d_lines (List.map Conv.coq_string orig) with
+         | Some (mc, _) when mc = c -> bump "load_c2d_input_equal"
+         | Some (mc, _) ->
+           add (Diff ("load-vector", Printf.sprintf "c2d input: model [%s] impl [%s]" (show_circuit mc) (show_circuit c)))
+         | None -> add (Diff ("load-vector", "the model loader panics on the c2d input")))
+      | _ -> ());
      (* (i) writer *)
      let model_lines = List.map Conv.ocaml_string (Model.write_c2d c (Conv.nat_of_int n)) in
      if model_lines <> saved then begin
